@@ -389,7 +389,7 @@ class Recfile(object):
                 result = self._read_columns(colnums, rows)
 
         if isscalar:
-            result = result[columns]
+            result = result[columns if fields is None else fields]
         elif split:
             result = split_fields(result)
 
